@@ -2,7 +2,8 @@
    is what the strided-interval model computes for + (and for binary -, with an aligned subtrahend) is sound: C21's theorems
    prove the premise [entry_ok] of C24_table for these operators. *)
 From Coq Require Import ZArith List Bool Lia.
-Require Import CV.Spec.BV CV.Model.PyPrelude CV.Model.Ast CV.Model.SI CV.Model.AbsInt CV.Proofs.SISound CV.Proofs.AbsIntTable.
+Require Import CV.Spec.BV CV.Model.PyPrelude CV.Model.Ast CV.Model.SI CV.Model.SIUnion CV.Model.AbsInt CV.Proofs.SISound
+               CV.Proofs.SIUnionSound CV.Proofs.AbsIntTable.
 Import ListNotations.
 Open Scope Z_scope.
 
@@ -37,4 +38,14 @@ Proof.
   cbn [eval_op bin_bv] in Hev. rewrite <- Hab, Z.eqb_refl in Hev. inversion Hev; subst v.
   destruct (sub_sound a b x y Wa Wb Hab Al Gx Gy) as (r' & E & _ & Br & G). rewrite Hr in E. inversion E; subst r'.
   apply gamma_t_asi. exists (bvsub (bits a) x y). split; [rewrite Br; reflexivity|exact G].
+Qed.
+
+(* the join hypothesis of the If rule is dischargeable too: what the union model computes is a sound join *)
+Theorem union_join_ok a b r : wf a -> wf b -> bits a = bits b -> si_union a b = Ok r -> join_ok (asi a, asi b, asi r).
+Proof.
+  intros Wa Wb Hab Hr. unfold join_ok. intros v Hv.
+  destruct (union_sound a b Wa Wb Hab) as (r' & E & _ & Br & G). rewrite Hr in E. inversion E; subst r'.
+  apply gamma_t_asi. destruct Hv as [Hv|Hv]; apply gamma_t_asi in Hv as (x & -> & Gx).
+  - exists x. split; [rewrite Br; reflexivity|apply G; auto].
+  - exists x. split; [rewrite Br, Hab; reflexivity|apply G; auto].
 Qed.
